@@ -24,12 +24,16 @@ out = ['# Seeded breaking changes: what the quick tier of each check reports',
        '| seeded change | property | needs, to manifest | tests pass | demo fails with / passes without | quick check | first violation reported |',
        '|---|---|---|---|---|---|---|']
 n = caught = 0
+rejected = []
 for d in sorted(os.listdir(os.path.join(VERIF, 'seeded'))):
     mp = os.path.join(VERIF, 'seeded', d, 'meta.json')
     if not os.path.exists(mp):
         continue
     meta = json.load(open(mp))
     r = rows.get(d, {})
+    if meta.get('status') == 'rejected':
+        rejected.append('- `%s` (%s): %s' % (d, meta['property'], meta['rejected_because']))
+        continue
     checks = r.get('checks', {})
     verdict = ', '.join('%s %s (%ss)' % (k, v['verdict'], v['seconds']) for k, v in checks.items()) or 'not run'
     first = '; '.join(v['first'].replace('violated: ', '')[:110].replace('|', '\\|') for v in checks.values())
@@ -40,5 +44,9 @@ for d in sorted(os.listdir(os.path.join(VERIF, 'seeded'))):
         r.get('demo_fails_with_change', '?'), r.get('demo_passes_without', '?'), verdict, first))
 out.insert(8, '%d seeded changes, %d caught by the quick tier of the owning check.' % (n, caught))
 out.insert(9, '')
+if rejected:
+    out += ['', '## Changes not kept as sensitivity cases', '',
+            'These were produced by the sub-agents and reproduce as described, but manifest only outside the domain the',
+            'property quantifies over; the checks are deliberately not extended to them:', ''] + rejected
 open(os.path.join(VERIF, 'seeded', 'RESULTS.md'), 'w').write('\n'.join(out) + '\n')
 print(n, caught)
